@@ -149,6 +149,14 @@ def evaluate(mod, cases, timeout_s, nproc):
     t0 = time.time()
     impl_res = implrun.run_chunked(mod.impl, cases, timeout_s=timeout_s, nproc=nproc,
                                    chunk=getattr(mod, "CHUNK", 40))
+    # a watchdog timeout or a dead worker is re-tried once, alone, with a doubled limit: non-termination of the
+    # implementation is deterministic and survives the retry, a transient stall (solver library, machine load) does not
+    retry = [k for k, r in enumerate(impl_res)
+             if isinstance(r, dict) and ("timeout" in r or str(r.get("crash", "")).startswith("worker died"))]
+    if retry and len(retry) <= 50:
+        again = implrun.run(mod.impl, [cases[k] for k in retry], timeout_s=2 * timeout_s, nproc=min(4, nproc))
+        for k, r in zip(retry, again):
+            impl_res[k] = r
     t1 = time.time()
     reqs, spans = [], []
     oreq = getattr(mod, "oracle_requests", None)
